@@ -116,6 +116,11 @@ func RunCase(c Case) (res stats.Result) {
 		return res
 	}
 	passed := o.Exit == 0 && o.Signal == "" && strings.HasSuffix(strings.TrimSpace(o.Stdout), benchcase.PassMarker)
+	if line := printedMismatch(o.Stderr); passed && line != "" {
+		res.Violation = fmt.Sprintf("%s: the run passes, but the workload itself printed a mismatch between device data and its host-side reference (it only logs it): %s", describe(c), line)
+		res.KnownID = matchKnown(c, o)
+		return res
+	}
 	if passed {
 		return res
 	}
@@ -135,6 +140,18 @@ func RunCase(c Case) (res stats.Result) {
 
 // RunPairCase runs a concurrent pair (two workloads, two driver contexts, one emulation run):
 // both workloads' Verify() must accept what they read back.
+// printedMismatch returns the first line in which a workload reports, without failing, that data
+// read back from the device differs from its host-side reference (kmeans checks its transposed
+// feature matrix that way: log.Printf("Swap error ...")).
+func printedMismatch(stderr string) string {
+	for _, l := range strings.Split(stderr, "\n") {
+		if strings.Contains(l, "Swap error (") {
+			return strings.TrimSpace(l)
+		}
+	}
+	return ""
+}
+
 func RunPairCase(c Case) (res stats.Result) {
 	if why := benchgen.AdmissiblePair(c); why != "" {
 		panic("harness: pair outside the documented domain: " + why + ": " + describe(c))
